@@ -962,7 +962,7 @@ Qed.
 (** Inside a [render]ed partial a name resolves to the tag's arguments, then
     the caller's render arguments / matter / globals, then the built-ins; the
     parent's block scopes, locals and counters are not visible. *)
-Lemma Rg_copy w gl st a ns : Rg w gl st a ->
+Lemma Rg_copy w gl st a (ns : dict) : Rg w gl st a ->
   Rg w (fun k => first_some [assoc k ns; glookup_m w k]) (ctx_copy st ns) empty_astate.
 Proof.
   intros (bl & Hsc & Hb & Hl & Hc & Hf & Hg & Hm & H4 & Hlc & Hcl & Hbl & Hrl & Hrm).
@@ -975,9 +975,8 @@ Proof.
       with (assoc k0 (read (store_of st ++ [ns]) (length (store_of st)))).
     rewrite read_app_new.
     destruct (assoc k0 ns); [reflexivity|]. rewrite <- Hrl.
-    replace (mget (store_of st ++ [ns]) (root_r st) k0) with (mget (store_of st) (root_r st) k0).
-    + destruct (mget (store_of st) (root_r st) k0); reflexivity.
-    + symmetry. apply mget_frame. intros x Hx. apply read_app_lt. specialize (Hrm x Hx). lia.
+    erewrite mget_frame; [reflexivity|].
+    intros x Hx. apply read_app_lt. specialize (Hrm x Hx). lia.
   - split.
     + intros x Hx. specialize (Hrm x Hx). rewrite app_length. simpl. lia.
     + intro k0. rewrite <- Hrl. apply mget_frame. intros x Hx. apply read_app_lt.
